@@ -50,12 +50,25 @@ def reduce_paramsets_requirements(paramsets_requirements, paramsets_user_configs
             # if v is a tuple, it's not user-configured, so convert to list
             if v == 'undefined':
                 continue
+            # a default of None marks a property that has to be configured
+            if v is None:
+                raise exceptions.InvalidModel(
+                    f'{paramset_name} requires the {k} attribute to be configured by you.'
+                )
             if isinstance(v, tuple):
                 v = list(v)
             # this implies user-configured, so check that it has the right number of elements
             elif isinstance(v, list) and default_v and len(v) != len(default_v):
                 raise exceptions.InvalidModel(
                     f'Incorrect number of values ({len(v)}) for {k} were configured by you, expected {len(default_v)}.'
+                )
+            elif (
+                isinstance(v, list)
+                and default_v is None
+                and len(v) != combined_paramset['n_parameters']
+            ):
+                raise exceptions.InvalidModel(
+                    f"Incorrect number of values ({len(v)}) for {k} were configured by you, expected {combined_paramset['n_parameters']}."
                 )
             elif v and default_v == 'undefined':
                 raise exceptions.InvalidModel(
